@@ -111,6 +111,9 @@ Definition pc_fact (s : state) : Prop :=
   | BWritten b ps => trunc_flag s = false /\ blocks_ok [b] /\
       (forall b' y, In b' (db_blocks s) -> memZ (b_id b') ps = true -> In y (b_samples b') -> In y (b_samples b))
   | BReloaded => trunc_flag s = false
+  (* the invariant below is about traces without stale-/selected-series compaction (no_view):
+     its program-counter states are unreachable there *)
+  | VWritten _ _ | VReloaded _ | VAwaited _ _ => False
   end.
 
 (* a committed sample is reachable by a querier created now *)
